@@ -120,6 +120,12 @@ CHECKS = {
         design="7/C11",
         technique=E2,
     ),
+    "C08": dict(
+        text="Total/average/per-antenna power constraints: for ALL real/complex inputs of the enumerated shapes (<= 6 elements per item) each item's output equals s.x_item with s > 0 the execution's own scale term, s^2 = T/(p + 1e-8), power(out) <= T(1+1e-6), >= 0.999 T for p >= 1e-5, per-item dependency, idempotence and rescaling invariance (normal-form identities + a small z3 lemma), both the batch-of-1 and batched code paths and the flat-signal branch; peak amplitude: bound, identity inside the limit, nearest-bound clipping (complex input is rejected); composite / apply_constraint_chain / combine_constraints == left fold (0..4 parts; unbounded fold-loop VCs are C17.fold_unbounded); factory OFDM/MIMO composites satisfy all limits simultaneously. PAPRConstraint (15 data-dependent iterations): bounded stand-in over the property's signal families.",
+        note="Trusted: vk engine; floats as reals with the stated 1e-6 / 1e-3 tolerances. Shapes small and enumerated. PAPR: bounded only, never counted as proved.",
+        design="7/C08",
+        technique=E2 + "; bounded native stand-in for the iterative PAPR constraint",
+    ),
 }
 
 NOT_YET = {}
